@@ -9,6 +9,7 @@ import (
 	"strings"
 
 	"golang.org/x/tools/go/packages"
+	"golang.org/x/tools/go/types/typeutil"
 )
 
 func init() { registry["C08"] = checkC08 }
@@ -266,6 +267,42 @@ func checkC08(c *Check) {
 }
 
 // R8.2/R8.3: the constant-parameter analysis.
+// alwaysRecurses: every return of the function yields ast.VisitRecurse, directly, through a once-defined local, or as the
+// result of a helper of the same package for which the same holds (a wrapper summary, two levels deep). Returns the text of
+// an offending result, or "".
+func alwaysRecurses(L *Loaded, fi *FuncInfo, depth int) string {
+	info := fi.Pkg.TypesInfo
+	bad := ""
+	ast.Inspect(fi.Decl.Body, func(n ast.Node) bool {
+		if _, isLit := n.(*ast.FuncLit); isLit {
+			return false
+		}
+		ret, ok := n.(*ast.ReturnStmt)
+		if !ok || len(ret.Results) != 1 {
+			return true
+		}
+		okRet := false
+		res := ast.Unparen(throughLocals(info, fi.Decl.Body, ret.Results[0]))
+		if sel, ok := res.(*ast.SelectorExpr); ok {
+			if cst, ok := info.Uses[sel.Sel].(*types.Const); ok && cst.Name() == "VisitRecurse" {
+				okRet = true
+			}
+		}
+		if call, ok := res.(*ast.CallExpr); ok && depth < 2 {
+			if callee, ok := typeutil.Callee(info, call).(*types.Func); ok {
+				if g := L.Funcs[callee]; g != nil && g.Pkg == fi.Pkg && g.Decl.Body != nil && alwaysRecurses(L, g, depth+1) == "" {
+					okRet = true
+				}
+			}
+		}
+		if !okRet {
+			bad = L.Src(ret.Results[0])
+		}
+		return true
+	})
+	return bad
+}
+
 func checkC08Annotator(c *Check, L *Loaded) {
 	// R8.3b: the analysis looks at every call and every assignment of a body only if its visitor never prunes the
 	// traversal below a node that can contain further expressions: the Visit methods for expressions and statements
@@ -280,28 +317,7 @@ func checkC08Annotator(c *Check, L *Loaded) {
 		if !strings.HasSuffix(sig.Recv().Type().String(), "ConstFuncParamAnnotator") || !strings.HasSuffix(sig.Results().At(0).Type().String(), "ast.VisitResult") {
 			return
 		}
-		info := fi.Pkg.TypesInfo
-		bad := ""
-		ast.Inspect(fi.Decl.Body, func(n ast.Node) bool {
-			if _, isLit := n.(*ast.FuncLit); isLit {
-				return false
-			}
-			ret, ok := n.(*ast.ReturnStmt)
-			if !ok || len(ret.Results) != 1 {
-				return true
-			}
-			okRet := false
-			res := throughLocals(info, fi.Decl.Body, ret.Results[0])
-			if sel, ok := ast.Unparen(res).(*ast.SelectorExpr); ok {
-				if cst, ok := info.Uses[sel.Sel].(*types.Const); ok && cst.Name() == "VisitRecurse" {
-					okRet = true
-				}
-			}
-			if !okRet {
-				bad = L.Src(ret.Results[0])
-			}
-			return true
-		})
+		bad := alwaysRecurses(L, fi, 0)
 		r3b.Decide(bad == "", L.QName(fi.Obj)+"|descends into children", fi.Decl.Pos(), "returns ast.VisitRecurse on every path", "returns "+bad+" on some path: calls and assignments nested below this node are not analysed, a parameter that is changed there stays marked constant and is borrowed at -O2 (use after free / changes visible in the caller)")
 	})
 	r2 := c.Rule("R8.2", "the constant-parameter analysis finds the parameter at the root of every assignable shape", 13)
@@ -527,6 +543,64 @@ func checkC08Annotator(c *Check, L *Loaded) {
 			continue
 		}
 		r3.Decide(okAll, key, token.NoPos, fmt.Sprintf("p constant afterwards: %v", tc.wantConst), "handing p to a "+tc.name+" leaves the wrong constant mark on p: the elision of the caller's copy is licensed although the value can change")
+	}
+	// an overloaded operator is a call of the overloading function (the generator compiles it as one): every expression kind
+	// that can carry an overload hands its arguments over like a call does
+	in.Models["ast.(*Ast).GetMetadataByKind"] = func(in *Interp, pkg *packages.Package, call *ast.CallExpr, recv Val, args []Val) (Val, bool) {
+		return TupleV{NilV{}, boolV(false)}, true
+	}
+	var kinds []string
+	if ap := L.ByRel["src/ast"]; ap != nil {
+		sc := ap.Types.Scope()
+		for _, n := range sc.Names() {
+			tn, ok := sc.Lookup(n).(*types.TypeName)
+			if !ok {
+				continue
+			}
+			st, ok := tn.Type().Underlying().(*types.Struct)
+			if !ok {
+				continue
+			}
+			for i := 0; i < st.NumFields(); i++ {
+				if nameIs(st.Field(i), "OverloadedBy") {
+					kinds = append(kinds, canonName(tn))
+				}
+			}
+		}
+	}
+	sort.Strings(kinds)
+	if len(kinds) == 0 {
+		r3.Und("annotators.(*ConstFuncParamAnnotator)|overloaded operators", token.NoPos, "no expression kind with an OverloadedBy field found")
+	}
+	for _, kind := range kinds {
+		key := "annotators.(*ConstFuncParamAnnotator).Visit" + kind + "|p handed to an operator overload not analysed yet"
+		fi := L.Fn("src/ast/annotators.(*ConstFuncParamAnnotator).Visit" + kind)
+		if fi == nil {
+			r3.Bad(key, token.NoPos, "the analysis does not look at a "+kind+" that is overloaded by a function: a parameter handed to a Referenz parameter of the overload keeps its constant mark, at -O2 the caller lends its variable and the overload changes and releases it behind the caller's back")
+			continue
+		}
+		okAll, runs := true, 0
+		in.RunAll(16, func() {
+			a := mkAnn()
+			callee := mkFuncDecl(&DT{Kind: "TEXT"}, &DT{Kind: "ZAHL"})
+			callee.get("Parameters").(SliceV).Elems[0].(*Obj).get("Name").(*Obj).set("Literal", StrV("x"))
+			ov := newObj("ast.OperatorOverload")
+			ov.set("Decl", callee)
+			ov.set("Args", MapV{Keys: []Val{StrV("x")}, Vals: []Val{ident(p)}})
+			e := newObj("ast." + kind)
+			e.set("OverloadedBy", ov)
+			in.CallFunc(fi, a, []Val{e})
+			runs++
+			pm, pk := markOf(a, p)
+			if !pk || pm {
+				okAll = false
+			}
+		})
+		if runs == 0 {
+			r3.Und(key, token.NoPos, "not evaluated")
+			continue
+		}
+		r3.Decide(okAll, key, token.NoPos, "p marked as modified", "handing p to an operator overload whose parameters are not known to be constant leaves p marked constant: at -O2 the caller lends its variable and the overload can change and release it")
 	}
 }
 
